@@ -237,6 +237,8 @@ var c12Pods = []cniPod{
 	{Name: "p-eni", WantENI: true},
 	{Name: "p-eni-ann", WantENI: true, Networks: "b"},
 	{Name: "p-file", Networks: "d,a"},
+	{Name: "p-afile", Networks: "a,d"}, // the file-only network is not the first one
+	{Name: "p-d", Networks: "d"},
 	{Name: "p-aa", Networks: "a,a"},
 	{Name: "p-unknown", Networks: "a,zz"},
 	{Name: "p-args", Networks: "a,b", ExtendedArg: `{"common":{"ipinfos":[{"ip":"10.1.2.3/24","vlan":2,"gateway":"10.1.2.1"}],"x":"y"}}`},
@@ -473,13 +475,45 @@ func c12PairJob(shard, nshards, maxLen int) Job {
 	}}
 }
 
+// c12FreshJob: histories on a daemon that has just started (nothing loaded or cached yet): every ordered pair of pods from a
+// menu that uses the file-only network in every position.
+func c12FreshJob() Job {
+	name := "fresh-daemon/pairs"
+	return Job{Name: name, Weight: 2, Run: func(deadline time.Time) *ScenResult {
+		t0 := time.Now()
+		r := newCaseResult()
+		menu := []string{"p-afile", "p-d", "p-file", "p-ab", "p-none"}
+		for _, conf := range c12Confs[:2] {
+			for _, p1 := range menu {
+				for _, p2 := range menu {
+					if time.Now().After(deadline) {
+						r.exhausted = false
+						return r.toScen(name, t0, nil)
+					}
+					h, err := newCNIHarness(conf)
+					if err != nil {
+						panic(err)
+					}
+					for _, p := range c12Pods {
+						h.putPod(p)
+					}
+					hist := []cniReq{{"ADD", "c1", p1}, {"ADD", "c2", p2}, {"DEL", "c2", p2}, {"DEL", "c1", p1}}
+					c12RunHistory(r, name, h, conf, hist, nil)
+					h.close()
+				}
+			}
+		}
+		return r.toScen(name, t0, map[string]int{"pods": len(menu)})
+	}}
+}
+
 func init() {
 	register(&Property{ID: "C12", Level: "fault_enumeration", QuickS: 150, ThoroughS: 900,
 		Assume: []string{"a real galaxy.Galaxy object (Init from a JSON configuration, fake clientset) driven through its /cni HTTP handler in the harness process; plugins are recording shell scripts found via the daemon's CNI paths",
 			"networks a,b,c in the JSON configuration, d only as a file in network-conf-dir; 4 daemon configurations (default networks, ENI network); 13 pod shapes (no annotation, comma and JSON forms, interfaces, ENI request, duplicate network, unknown network, extended args)",
 			"concurrent requests are covered by C19's scenarios, not here"},
 		Rule: "(1) every daemon configuration x pod x failure pattern (every subset of <=4 of {ADD,DEL} x the pod's plugin types failing) on ADD;DEL, and the same with the failures lifted followed by two more DELs; (2) every history of 2..N requests over two containers " +
-			"(ADD/DEL for each) for 16 pod pairs x 3 failure patterns; each request's plugin invocations (command, type, container, interface, parsed CNI_ARGS, stdin incl. prevResult), HTTP outcome and state file are compared with the list-manipulation model; " +
+			"(ADD/DEL for each) for 16 pod pairs x 3 failure patterns, and ADD;ADD;DEL;DEL for 25 pod pairs on a freshly started daemon each; each request's plugin invocations (command, type, container, interface, parsed CNI_ARGS, stdin incl. prevResult), HTTP outcome and state file are compared with the list-manipulation model; " +
 			"distinct/non-trivial = distinct (configuration, failures, history, invocation sequence)",
 		Jobs: func(tier string) []Job {
 			maxLen := 3
@@ -490,7 +524,7 @@ func init() {
 			for s := 0; s < 8; s++ {
 				jobs = append(jobs, c12SingleJob(s, 8), c12PairJob(s, 8, maxLen))
 			}
-			return jobs
+			return append(jobs, c12FreshJob())
 		}})
 	replayers["C12"] = replayDescOnly
 }
